@@ -192,7 +192,11 @@ using u8 = std::uint8_t; using u16 = std::uint16_t; using u32 = std::uint32_t; u
     X(bg12, 2, u32, gray_layout_t, 12) X(bg16, 2, u32, gray_layout_t, 16) \
     X(b222, 2, u16, rgb_layout_t, 2, 2, 2) X(b222bgr, 2, u16, bgr_layout_t, 2, 2, 2) X(b121, 2, u16, rgb_layout_t, 1, 2, 1) X(b232, 3, u16, rgb_layout_t, 2, 3, 2) \
     X(b565, 3, u32, rgb_layout_t, 5, 6, 5) X(b888, 3, u32, rgb_layout_t, 8, 8, 8) X(b3333, 3, u32, rgba_layout_t, 3, 3, 3, 3) X(b5551abgr, 3, u32, abgr_layout_t, 5, 5, 5, 1) \
-    X(baaa, 3, u64, rgb_layout_t, 10, 10, 10) X(b222w, 3, u64, rgb_layout_t, 2, 2, 2) X(b12345, 3, u32, gil::devicen_layout_t<5>, 1, 2, 3, 4, 5)
+    X(baaa, 3, u64, rgb_layout_t, 10, 10, 10) X(b222w, 3, u64, rgb_layout_t, 2, 2, 2) X(b12345, 3, u32, gil::devicen_layout_t<5>, 1, 2, 3, 4, 5) \
+    /* TIGHT user-chosen carriers: the bit field is exactly as wide as the pixel (in contract wherever every channel, at its own */ \
+    /* normalised first bit, fits the bit field; the generator only issues such positions) */ \
+    X(t2222, 4, u8, rgba_layout_t, 2, 2, 2, 2) X(t232, 4, u8, rgb_layout_t, 2, 3, 2) X(t44, 4, u8, gil::devicen_layout_t<2>, 4, 4) \
+    X(t565, 4, u16, rgb_layout_t, 5, 6, 5) X(t565bgr, 4, u16, bgr_layout_t, 5, 6, 5) X(t8888, 4, u32, rgba_layout_t, 8, 8, 8, 8) X(tg8, 4, u8, gray_layout_t, 8)
 
 int main() {
     return hv::run([](std::string const& line) -> std::string {
